@@ -328,3 +328,45 @@ Definition fetch (l : plog) (cached : bool) (hw o max : Z) : fres :=
        | ROutOfRange => FOffsetOutOfRange
        | _ => FBackpressure
        end.
+
+(* ---------- vocabulary of the property statements (no proofs here) ---------- *)
+(* appended payloads the theorems range over: what NewRecordBatchFromBytes accepts,
+   with a non-negative lastOffsetDelta (negative deltas are C02's finding) *)
+Definition valid_op (o : op) : Prop :=
+  match o with OAppend p => batch_header_min <= zlen p -> 0 <= payload_lod p | _ => True end.
+
+(* [d] is a non-empty prefix of the bytes of the batches [rest], which are a suffix of
+   [bs], and every batch of [bs] before that suffix ends below [o]: the run starts at
+   a batch boundary at or before the batch holding o (or at the first batch after o
+   when no batch holds o) *)
+Definition is_run (bs : list batch) (o : Z) (d : bytes) : Prop :=
+  exists pre rest n, bs = pre ++ rest /\ Forall (fun b => b_last b < o) pre /\
+    d = ztake n (body_of rest) /\ d <> [].
+
+(* ... and [d] reaches past the start of the first batch ending at or after [o] *)
+Definition progress_run (bs : list batch) (o : Z) (d : bytes) : Prop :=
+  exists pre mid rest n, bs = pre ++ mid ++ rest /\ Forall (fun b => b_last b < o) (pre ++ mid) /\
+    (exists b r, rest = b :: r /\ o <= b_last b) /\
+    d = ztake n (body_of (mid ++ rest)) /\ zlen (body_of mid) < zlen d.
+
+(* the leading batches that end below o *)
+Fixpoint lead (o : Z) (bs : list batch) : list batch :=
+  match bs with [] => [] | b :: r => if b_last b <? o then b :: lead o r else [] end.
+
+(* bytes between the position of the index entry Read starts from and the start of
+   the batch holding the (snapped) offset; 0 for reads served from memory *)
+Definition entry_distance (l : plog) (o : Z) : Z :=
+  match find_segment (l_segs l) o with
+  | Some (s, o') => segment_header_len + zlen (body_of (lead o' (s_batches s)))
+                    - ie_pos (find_entry (s_entries s) o')
+  | None => 0
+  end.
+
+(* decidable form of [progress_run] for the refutation witness *)
+Fixpoint count_lt (o : Z) (bs : list batch) : nat :=
+  match bs with [] => O | b :: r => if b_last b <? o then S (count_lt o r) else O end.
+Definition progress_b (bs : list batch) (o : Z) (d : bytes) : bool :=
+  let idx := count_lt o bs in
+  existsb (fun i0 => bytes_eqb d (ztake (zlen d) (body_of (skipn i0 bs)))
+                     && (zlen (body_of (firstn (idx - i0) (skipn i0 bs))) <? zlen d))
+          (seq 0 (S idx)).
